@@ -84,13 +84,15 @@ PosIn(seq, b) == CHOOSE i \in DOMAIN seq : seq[i] = b
 
 RankJ(hj) ==
     LET J == hj.j
-        pos(b) == PosIn(hj.ranked, b)
-        Before(c, b) == KeyLT(Key(J[c]), Key(J[b])) \/ (Key(J[c]) = Key(J[b]) /\ pos(c) < pos(b))
-        newpos(b) == 1 + Cardinality({c \in DOMAIN J : Before(c, b)})
-        ranked2 == TLCEval([i \in 1..Len(hj.ranked) |-> CHOOSE b \in DOMAIN J : newpos(b) = i])
-        place(b) == 1 + Cardinality({c \in DOMAIN J : KeyLT(Key(J[c]), Key(J[b]))})
-    IN [hj EXCEPT !.ranked = ranked2, !.j = TLCEval([b \in DOMAIN J |-> [J[b] EXCEPT !.p = place(b),
-                                                          !.pub = IF J[b].bidx = 0 THEN 0 ELSE place(b)]])]
+        K == TLCEval([b \in DOMAIN J |-> Key(J[b])])                   \* every key once (23-athlete fields)
+        P == TLCEval([i \in DOMAIN hj.ranked |-> hj.ranked[i]])
+        pos == TLCEval([b \in DOMAIN J |-> PosIn(P, b)])
+        Before(c, b) == KeyLT(K[c], K[b]) \/ (K[c] = K[b] /\ pos[c] < pos[b])
+        newpos == TLCEval([b \in DOMAIN J |-> 1 + Cardinality({c \in DOMAIN J : Before(c, b)})])
+        ranked2 == TLCEval([i \in 1..Len(hj.ranked) |-> CHOOSE b \in DOMAIN J : newpos[b] = i])
+        place == TLCEval([b \in DOMAIN J |-> 1 + Cardinality({c \in DOMAIN J : KeyLT(K[c], K[b])})])
+    IN [hj EXCEPT !.ranked = ranked2, !.j = TLCEval([b \in DOMAIN J |-> [J[b] EXCEPT !.p = place[b],
+                                                          !.pub = IF J[b].bidx = 0 THEN 0 ELSE place[b]]])]
 
 Reinstate(jr) == [jr EXCEPT !.elim = FALSE, !.lim = 1, !.cf = 0]
 
@@ -242,11 +244,13 @@ CBBetter(k1, k2) ==  \* k1 strictly better than k2
     \/ k1[1] = k2[1] /\ k1[2] = k2[2] /\ k1[3] < k2[3]
     \/ k1[1] = k2[1] /\ k1[2] = k2[2] /\ k1[3] = k2[3] /\ k1[4] < k2[4]
 \* place from the first n columns; 0 = unplaced (no clearance)
-CBPlace(hj, b, n) ==
-    LET kb == CBKey(hj, hj.j[b].card, n) IN
-    IF kb[1] = 0 THEN 0
-    ELSE 1 + Cardinality({c \in DOMAIN hj.j : CBBetter(CBKey(hj, hj.j[c].card, n), kb)})
-TiedFirst(hj, n) == {b \in DOMAIN hj.j : CBPlace(hj, b, n) = 1}
+CBKeys(hj, n) == TLCEval([c \in DOMAIN hj.j |-> CBKey(hj, hj.j[c].card, n)])
+CBPlaces(hj, n) ==
+    LET K == CBKeys(hj, n) IN
+    TLCEval([b \in DOMAIN hj.j |-> IF K[b][1] = 0 THEN 0
+                                   ELSE 1 + Cardinality({c \in DOMAIN hj.j : CBBetter(K[c], K[b])})])
+CBPlace(hj, b, n) == CBPlaces(hj, n)[b]
+TiedFirst(hj, n) == LET P == CBPlaces(hj, n) IN {b \in DOMAIN hj.j : P[b] = 1}
 
 \* Jump-off participants still in after column k (k >= nreg).
 RECURSIVE Active(_, _, _)
@@ -344,7 +348,7 @@ PlacesFail(hj) ==
     LET nr == NRegR(hj)
         n == IF nr = 0 THEN NH(hj) ELSE nr
         P == [b \in DOMAIN hj.j |-> PublicPlace(hj.j[b])]
-        CB == [b \in DOMAIN hj.j |-> CBPlace(hj, b, n)]
+        CB == CBPlaces(hj, n)
         T == TiedFirst(hj, n)
         ph == RPhase(hj)
         S == IF nr = 0 THEN {} ELSE Active(hj, nr, NH(hj))
